@@ -79,7 +79,7 @@ CHECKS = {
              "2-link concurrent free driver are executed on the real InvoiceRegistry over the KV store and over SQLite, every "
              "HtlcResolution (incl. later hodl resolutions) and the LookupInvoice projection after every event are validated "
              "by TLC against the same spec for both stores. The interceptor's answer (CancelSet, AmountPaid) is a parameter of every call incl. replays (ReplaySameVerdict over all answers; Eff(p)); AMP set lifecycles with CancelInvoice/CancelSet/timeouts after a set settled (ampsets).",
-        note="blinded-path invoices, spontaneous AMP, KeysendHoldTime, the HTLC interceptor and the expiry watcher are not "
+        note="spontaneous AMP, KeysendHoldTime, interceptor failure modes and the expiry watcher are not "
              "covered; Postgres unavailable; known finding F15 (keysend replay after a block is failed) is reported as "
              "KNOWN-FINDING; concurrent blocks are accepted iff some interleaving is a behaviour of the spec",
         technique="TLA+ spec + TLC full-closure model checking + TLC trace validation on KV and SQLite stores",
@@ -110,8 +110,8 @@ CHECKS = {
              "channel types (MuSig2 for taproot) through CreateCloseProposal/CompleteCooperativeClose, on two real "
              "ChanClosers back to back, and on the RBF-coop transitions one round at a time; outputs, fees, every proposed "
              "fee, raw-byte equality of both parties' transactions and script-engine validity are validated by TLC. Part III: one real RBF closer against an arbitrary honest BOLT-2 peer whose fee, lock time, delivery script and signature field are chosen by TLC (PeerOffer/NodeReply/NodeOffer/PeerReply/NodeSig; ExactReply incl. lock time, NamedRefusals); RbfM also on the three taproot types with real MuSig2 sessions.",
-        note="negotiation assumes honest peers and in-order delivery; RBF-coop is modelled coarsely (one round, no protofsm "
-             "loop); negotiation runs use the 10 BTC fixture (fees/equality compared, output values compared in part i); "
+        note="negotiation assumes honest peers and in-order delivery; RBF-coop: multi-round lnd<->lnd (RbfM) and one real closer against a TLC-driven honest peer "
+             "(part III, non-taproot types), shutdown/flush states not modelled; negotiation runs use the 10 BTC fixture (fees/equality compared, output values compared in part i); "
              "latent RBF lock-time mismatch when Environment.BlockHeight != 0 is recorded as an observation (DESIGN 0b)",
         technique="TLA+ spec + TLC exhaustive grids + replay on real lnwallet/chancloser code + TLC trace validation",
         design_ref="DESIGN.md 4.13, 5/C17"),
@@ -277,8 +277,8 @@ CHECKS = {
              "beyond what the path needs) and 8-10 requests each (limits at/1 below/1 above the cost, outgoing-channel sets, "
              "last hop, ignored nodes/pairs, self-payment, route hints); the real findPath+newRoute answers are validated by "
              "TLC clause by clause. The request names its entry point (findPath+newRoute, FindRoute, RequestRoute, BuildRoute) and a possibly foreign source; the final-hop payload and the onion size are computed in TLA+ from the recorded payload contents (FinalPayload, PayloadFits <= 1300 with sphinx packing as oracle, SizeModelAgrees); RouteGenD generates diamond-with-tail graphs with limits between the candidate paths' needs and payloads filling 1300 bytes +-1.",
-        note="a 'no route' answer is never judged (completeness/optimality not claimed); probabilities fixed to 1; no blinded "
-             "tails; small amounts (64-bit arithmetic is C09's subject)",
+        note="a 'no route' answer is never judged (completeness/optimality not claimed); probabilities fixed to 1/0; blinded "
+             "tails only as introduction-node-only paths (F28/F29 reported there); small amounts (64-bit arithmetic is C09's subject)",
         technique="TLA+ spec + TLC model checking of payability + TLC as generator and as judge of routes returned by the real pathfinder",
         design_ref="DESIGN.md 4.15, 5/C19"),
     "C20": dict(
@@ -302,7 +302,7 @@ CHECKS = {
              "and out-of-order secrets and the equivalence 'accepted by the bucket check <=> consistent with every "
              "earlier secret'; TLC-generated behaviours (H=5 from the top of the index space, H=48 started at "
              "structural bit patterns through NewRevocationStoreFromBytes) are replayed on the real "
-             "RevocationStore/Producer and every recorded answer is validated by TLC against the same spec. A LiveRefresh action (OpenChannel.Refresh on a live channel) is interleaved; after it every received secret must still be reproducible through a stale handle (StaleSecretsRule).",
+             "RevocationStore/Producer and every recorded answer is validated by TLC against the same spec. A LiveRefresh action (OpenChannel.Refresh on a live channel) is interleaved; after it every received secret must still be reproducible through a stale handle (StaleSecretsRule). Adversarial revocations (RecvBadRev: a revoke_and_ack with a flipped or negated secret delivered before the genuine one) must be refused and leave memory and disk unchanged, and the genuine message must still be accepted afterwards (found and fixed F33).",
         note="hash values abstracted to (family,index) - SHA-256 assumed collision free; executor projection "
              "(lenBuckets, index, Encode length, LookUp==producer value) is trusted; part B (release rule: the "
              "secret in every revoke_and_ack is the one the model releases and the durable local commitment read back "
